@@ -114,11 +114,15 @@ Proof. intros [] []; cbn; split; intros H; try discriminate; reflexivity. Qed.
 Lemma msg_eqb_eq : forall a b, msg_eqb a b = true -> a = b.
 Proof.
   intros [t1 f1 o1 tm1 lt1 i1 e1 c1 r1] [t2 f2 o2 tm2 lt2 i2 e2 c2 r2] H. unfold msg_eqb in H. cbn in H.
-  repeat (apply andb_true_iff in H as [H ?]).
-  apply mtype_eqb_eq in H. repeat match goal with E : (_ =? _) = true |- _ => apply Nat.eqb_eq in E end.
-  match goal with E : log_eqb _ _ = true |- _ => apply log_eqb_eq in E end.
-  match goal with E : Bool.eqb _ _ = true |- _ => apply eqb_prop in E end.
-  subst. reflexivity.
+  destruct (mtype_eqb t1 t2) eqn:E1; [|discriminate]. apply mtype_eqb_eq in E1.
+  destruct (f1 =? f2) eqn:E2; [|discriminate]. apply Nat.eqb_eq in E2.
+  destruct (o1 =? o2) eqn:E3; [|discriminate]. apply Nat.eqb_eq in E3.
+  destruct (tm1 =? tm2) eqn:E4; [|discriminate]. apply Nat.eqb_eq in E4.
+  destruct (i1 =? i2) eqn:E5; [|discriminate]. apply Nat.eqb_eq in E5.
+  destruct (lt1 =? lt2) eqn:E6; [|discriminate]. apply Nat.eqb_eq in E6.
+  destruct (c1 =? c2) eqn:E7; [|discriminate]. apply Nat.eqb_eq in E7.
+  destruct (Bool.eqb r1 r2) eqn:E8; [|discriminate]. apply eqb_prop in E8.
+  apply log_eqb_eq in H. subst. reflexivity.
 Qed.
 
 Lemma memb_In : forall m l, memb m l = true -> In m l.
